@@ -2261,10 +2261,23 @@ func (nz *normaliser) expandBody(h *helper, call *ast.CallExpr, lhs []ast.Expr, 
 				for i, l := range lhs {
 					l2[i] = cloneNode(l)
 				}
-				ga := &ast.AssignStmt{Lhs: l2, Tok: token.ASSIGN, Rhs: res}
-				out = append(out, ga)
-				nGenAssign++
-				lastGenAssign = ga
+				// results nobody receives: `_ = nil` does not type-check and `_ = x` says nothing
+				if len(l2) == len(res) {
+					var kl, kr []ast.Expr
+					for i := range l2 {
+						if id, isID := l2[i].(*ast.Ident); isID && id.Name == "_" && pureSyntax(res[i]) {
+							continue
+						}
+						kl, kr = append(kl, l2[i]), append(kr, res[i])
+					}
+					l2, res = kl, kr
+				}
+				if len(l2) > 0 {
+					ga := &ast.AssignStmt{Lhs: l2, Tok: token.ASSIGN, Rhs: res}
+					out = append(out, ga)
+					nGenAssign++
+					lastGenAssign = ga
+				}
 			} else if len(res) > 0 {
 				for _, e := range res {
 					out = append(out, &ast.AssignStmt{Lhs: []ast.Expr{ast.NewIdent("_")}, Tok: token.ASSIGN, Rhs: []ast.Expr{e}})
